@@ -38,7 +38,13 @@ pub struct Dfa {
 
 #[derive(Clone, Debug, Serialize, Deserialize)]
 pub enum Case {
-    Vob { size: usize, ops: Vec<VobOp> },
+    Vob {
+        size: usize,
+        ops: Vec<VobOp>,
+        /// spare capacity in bits (`alloc_with_capacity(size, size + cap)`, what `TokTrie::alloc_token_set` does with 1)
+        #[serde(default)]
+        cap: u8,
+    },
     Trie { words: Vec<B>, eos: u16, dfa: Dfa, starts: Vec<B>, filter: Vec<u16>, texts: Vec<B> },
     HfJson { byte_level: bool, merges: Vec<(u16, u16)>, added: Vec<(String, bool)>, space_char: u8, texts: Vec<B> },
     TikToken { n: usize, holes: Vec<u16>, specials: u8, texts: Vec<B> },
@@ -262,9 +268,12 @@ fn check_vob(v: &SimpleVob, model: &BTreeSet<usize>, size: usize, what: &str) ->
 // ------------------------------------------------------------------------------------------
 
 impl C16 {
-    fn run_vob(&self, size0: usize, ops: &[VobOp], ctx: &mut Ctx) -> R {
+    fn run_vob(&self, size0: usize, ops: &[VobOp], cap: u8, ctx: &mut Ctx) -> R {
         let mut size = size0;
-        let mut v = SimpleVob::alloc(size);
+        let mut v = if cap == 0 { SimpleVob::alloc(size) } else { SimpleVob::alloc_with_capacity(size, size + cap as usize) };
+        if cap > 0 {
+            ctx.class("vob_with_spare_capacity");
+        }
         let mut m: BTreeSet<usize> = BTreeSet::new();
         let mut log: Vec<String> = vec![];
         let touched_boundary = |i: usize| i % 32 == 0 || i % 32 == 31;
@@ -336,6 +345,12 @@ impl C16 {
                     let (oa, ob) = (model_bits(a, size), model_bits(b, size));
                     v.or_minus(&vob_from(&oa, size), &vob_from(&ob, size));
                     m.extend(oa.difference(&ob).cloned());
+                }
+                // resize() only grows beyond the allocated storage and trim_trailing_zeros() re-derives the
+                // length from it: neither is meant for a set with spare capacity
+                VobOp::Grow(_) | VobOp::Trim if cap > 0 => {
+                    log.pop();
+                    continue;
                 }
                 VobOp::Grow(d) => {
                     size += *d as usize;
@@ -836,7 +851,8 @@ impl Prop for C16 {
             0..4,
         );
         prop_oneof![
-            3 => (size_strategy(), proptest::collection::vec(vob_op(), 1..30)).prop_map(|(size, ops)| Case::Vob { size, ops }),
+            3 => (size_strategy(), proptest::collection::vec(vob_op(), 1..30), prop_oneof![3 => Just(0u8), 2 => Just(1u8), 1 => Just(31u8), 1 => Just(32u8), 1 => Just(33u8)])
+                .prop_map(|(size, ops, cap)| Case::Vob { size, ops, cap }),
             4 => (trie_words(), any::<u16>(), dfa_strategy(), proptest::collection::vec(word_strategy(), 0..4), bits(), proptest::collection::vec(text_strategy(), 0..4))
                 .prop_map(|(words, eos, dfa, starts, filter, texts)| Case::Trie { words, eos, dfa, starts, filter, texts }),
             2 => (any::<bool>(), proptest::collection::vec(any::<(u16, u16)>(), 0..40), added, any::<u8>(), proptest::collection::vec(text_strategy(), 1..5))
@@ -848,7 +864,7 @@ impl Prop for C16 {
     }
     fn run(&self, case: &Case, ctx: &mut Ctx) -> R {
         match case {
-            Case::Vob { size, ops } => self.run_vob(*size, ops, ctx),
+            Case::Vob { size, ops, cap } => self.run_vob(*size, ops, *cap, ctx),
             Case::Trie { words, eos, dfa, starts, filter, texts } => self.run_trie(words, *eos, dfa, starts, filter, texts, ctx),
             Case::HfJson { byte_level, merges, added, space_char, texts } => self.run_hf(*byte_level, merges, added, *space_char, texts, ctx),
             Case::TikToken { n, holes, specials, texts } => self.run_tiktoken(*n, holes, *specials, texts, ctx),
